@@ -35,6 +35,46 @@ class TypeMarker(object):
         return hash(("TypeMarker", self.name))
 
 
+def strip_verbose(pat):
+    """a re.VERBOSE pattern as the equivalent plain pattern: unescaped whitespace and #-comments outside character classes are
+    removed (as the re module does)"""
+    out, i, in_class = [], 0, False
+    while i < len(pat):
+        c = pat[i]
+        if c == "\\" and i + 1 < len(pat):
+            out.append(pat[i:i + 2])
+            i += 2
+            continue
+        if in_class:
+            out.append(c)
+            if c == "]":
+                in_class = False
+            i += 1
+            continue
+        if c == "[":
+            in_class = True
+            out.append(c)
+            i += 1
+            # a leading ] (or ^]) is literal
+            if i < len(pat) and pat[i] == "^":
+                out.append("^")
+                i += 1
+            if i < len(pat) and pat[i] == "]":
+                out.append("]")
+                i += 1
+            continue
+        if c in " \t\n\r\f\v":
+            i += 1
+            continue
+        if c == "#":
+            while i < len(pat) and pat[i] != "\n":
+                i += 1
+            continue
+        out.append(c)
+        i += 1
+    return "".join(out)
+
+
 class ObjConst(object):
     """an instance of a plain record class of the package built in a constant table: its class and its attribute values"""
     def __init__(self, qname, attrs):
@@ -983,10 +1023,15 @@ class Model(object):
                             return {"s"}
                         if d in ("re.UNICODE", "re.U"):
                             return set()
+                        if d in ("re.VERBOSE", "re.X"):
+                            return {"x"}
                         if isinstance(n, ast.Constant) and n.value == 0:
                             return set()
-                        raise NotConst("re.compile with flags other than DOTALL is not supported by the regex engine")
-                    if flagset(fl):
+                        raise NotConst("re.compile with flags other than DOTALL/VERBOSE is not supported by the regex engine")
+                    fs = flagset(fl)
+                    if "x" in fs:
+                        pat = strip_verbose(pat)   # the same pattern without the layout and comments re.VERBOSE ignores
+                    if "s" in fs:
                         pat = "(?s)" + pat        # carried as a global inline flag: same language, and the engine reads it from there
                 return RegexConst(pat, flags)
             if fname == "type" and len(node.args) == 1 and isinstance(node.args[0], ast.Constant) and node.args[0].value is None:
